@@ -4,6 +4,7 @@ import Dcg.Proofs.FieldRef
 import Dcg.Proofs.FieldInherit
 import Dcg.Proofs.FieldRefDefault
 import Dcg.Gen.ParsePasses
+import Dcg.Model.FieldReads
 /-
 C05 — required, nullable and default semantics of each member are carried over.
 
@@ -951,5 +952,53 @@ theorem reference_default_after_collapse_loses_it :
     (run ⟨false, false, false⟩ moved s).fields = [⟨.root 5, .raw 3⟩, ⟨.root 5, .raw 4⟩] := by decide
 
 end RefDefault
+
+
+/-! ### Name capture: what the default expression of a rendered member reads in the class body -/
+section NameCapture
+open Dcg.Model.FieldReads
+
+/-- FULL STRENGTH (false of the code): whatever the earlier members of the class are called, the
+default expression rendered for a member reads none of them. -/
+def default_expression_never_captured_full : Prop :=
+  ∀ (v : Vec) (bound : List String), captured bound (reads v.kind (render v).asg) = false
+
+/-- The only bare name that the default expression of ANY rendered member (all vectors of the
+space, every kind) reads while the class body runs is the helper its template calls (`Field` /
+`field`): defaults are literals or sit in the body of a lambda. A regression that writes a bare
+builtin / class name there (`field(default_factory=list)`) breaks the tie of this function with
+the real member line (campaign "default expression reads"). -/
+theorem default_expression_reads_only_helper (v : Vec) :
+    ∀ n ∈ reads v.kind (render v).asg, n = helper v.kind := by
+  intro n hn
+  cases h : (render v).asg <;> simp [reads, h] at hn <;> exact hn
+
+/-- `…_partial`: if no earlier member with a class-level value is named like the helper, no default
+expression of the class is captured - so an omitted member reads what the generator wrote. -/
+theorem default_expression_never_captured_partial (v : Vec) (bound : List String)
+    (hb : bound.contains (helper v.kind) = false) :
+    captured bound (reads v.kind (render v).asg) = false := by
+  unfold captured
+  rw [List.any_eq_false]
+  intro n hn
+  rw [default_expression_reads_only_helper v n hn]
+  intro hc
+  rw [hb] at hc
+  exact Bool.false_ne_true hc
+
+/-- non-vacuity: a member named `list` with a value in front of a dataclass member with an empty-list default -/
+example : (boundBy [("list", true), ("id", false)]).contains (helper .dc) = false := by decide
+
+/-- The full-strength statement is false: a dataclass member called `field` with a value in front of
+a member whose default is written `field(default_factory=lambda :[])` (known finding
+C05-FIELD-HELPER-NAME-CAPTURED; replayed on the real code by its witness). -/
+theorem default_expression_never_captured_refuted : ¬ default_expression_never_captured_full := by
+  intro h
+  have := h { kind := .dc, nullsrc := .no, inreq := false, dflt := .listE, ty := .array, constr := false,
+              opts := default, via := .own, name := .plain, sc := false } (boundBy [("field", true)])
+  revert this
+  decide +kernel
+
+end NameCapture
 
 end Dcg.Props.C05
